@@ -28,6 +28,21 @@ Theorem C10_crash_safe :
 Proof. exact crash_safe_src. Qed.
 Print Assumptions C10_crash_safe.
 
+(* The same after ANY earlier crashes: histories in which every operation either completed
+   ([Done o]) or was interrupted at an arbitrary cut ([Crashed o k]) and the store was
+   reopened with oci.New on whatever was left (the tag resolver is reloaded from
+   index.json, leftover temporaries stay).  In particular the reopened store can always
+   be read (take k = 0), and a crash during recovery work is again harmless. *)
+Theorem C10_crash_safe_after_recoveries :
+  forall (H : list N -> N) (shuffle : nat -> list entry -> list entry),
+    (forall c l e, In e (shuffle c l) <-> In e l) ->
+    forall (h : list hop) (o : op) (k : nat),
+      let s := runc H shuffle src_inplace src_unlink_first h init in
+      Recoverable H (sfs s) (crash_fs H shuffle src_inplace src_unlink_first s o k)
+        (sfs (run_op H shuffle src_inplace src_unlink_first s o)).
+Proof. exact crash_safe_recovered_src. Qed.
+Print Assumptions C10_crash_safe_after_recoveries.
+
 (* the tag mapping a reader derives from index.json is the one before or the one after *)
 Theorem C10_tag_mapping_before_or_after :
   forall (H : list N -> N) (shuffle : nat -> list entry -> list entry),
